@@ -21,7 +21,7 @@ func VerifH_C16_api_failing_call() {
 
 	// one failing call
 	var ferr error
-	switch vrt.Choice(12) {
+	switch vrt.Choice(15) {
 	case 0:
 		_, ferr = fw.CreateDataset("/nope/d", Int32, []uint64{1}) // missing parent
 	case 1:
@@ -53,6 +53,13 @@ func VerifH_C16_api_failing_call() {
 			ferr3 := a.WriteAttribute("k2", int32(1))
 			vrt.Assert(ferr3 != nil, "refused-call-refused-again")
 		}
+	case 12:
+		// links cannot be added to a small (symbol table) group: the refusal must not leave the group behind
+		ferr = fw.CreateGroupWithLinks("/gl", map[string]string{"x": "/a"})
+	case 13:
+		ferr = fw.CreateDenseGroup("/dg", map[string]string{"x": "/nothing"}) // link target missing
+	case 14:
+		ferr = fw.CreateExternalLink("/missing/e", "other.h5", "/x") // parent missing
 	}
 	vrt.Assert(ferr != nil, "invalid-call-returns-error")
 
@@ -96,6 +103,207 @@ func VerifH_C16_api_failing_call() {
 		vrt.AssertNoErr(err, "b-read-ok")
 		vrt.Assert(len(v) == 1 && v[0] == float64(z), "b-data")
 	}
+	vrt.Covered("failing-call-compared")
+	_ = f.Close()
+}
+
+// creation calls on a writer obtained with OpenForWrite (a reopen session): whatever they answer, they do not panic;
+// an error leaves the content as it was, a success adds exactly the new object
+func VerifH_C16_api_session_creation() {
+	fw, err := CreateForWrite("c16s.h5", CreateTruncate, WithSuperblockVersion([]uint8{0, 2}[vrt.Choice(2)]))
+	vrt.AssertNoErr(err, "create-ok")
+	x := vrt.I32()
+	a, err := fw.CreateDataset("/a", Int32, []uint64{1})
+	vrt.AssertNoErr(err, "create-a-ok")
+	vrt.AssertNoErr(a.Write([]int32{x}), "write-a-ok")
+	_, err = fw.CreateGroup("/g")
+	vrt.AssertNoErr(err, "create-g-ok")
+	vrt.AssertNoErr(fw.Close(), "close-ok")
+
+	s, err := OpenForWrite("c16s.h5", OpenReadWrite)
+	vrt.AssertNoErr(err, "session-open-ok")
+	want := map[string]bool{"/": true, "/a": true, "/g": true}
+	k := vrt.Choice(6)
+	var cerr error
+	newPath := ""
+	switch k {
+	case 0:
+		newPath = "/g2"
+		_, cerr = s.CreateGroup(newPath)
+	case 1:
+		newPath = "/n"
+		var d *DatasetWriter
+		d, cerr = s.CreateDataset(newPath, Int32, []uint64{1})
+		if cerr == nil {
+			cerr = d.Write([]int32{7})
+		}
+	case 2:
+		newPath = "/g/n"
+		_, cerr = s.CreateDataset(newPath, Int32, []uint64{1})
+	case 3:
+		newPath = "/h"
+		cerr = s.CreateHardLink(newPath, "/a")
+	case 4:
+		newPath = "/s"
+		cerr = s.CreateSoftLink(newPath, "/a")
+	default:
+		newPath = "/dg"
+		cerr = s.CreateDenseGroup(newPath, map[string]string{"x": "/a"})
+	}
+	if cerr == nil {
+		want[newPath] = true
+	}
+	vrt.AssertNoErr(s.Close(), "close-ok")
+	_ = s.Close()
+
+	f, err := Open("c16s.h5")
+	vrt.AssertNoErr(err, "reopen-ok")
+	tree, dup := verifTree(f)
+	vrt.Assert(!dup, "no-name-twice")
+	n := 0
+	for p := range tree {
+		q := p
+		if len(q) > 1 && q[len(q)-1] == '/' {
+			q = q[:len(q)-1]
+		}
+		vrt.Assert(want[q], "failed-call-left-no-object")
+		n++
+	}
+	vrt.Assert(n == len(want), "accepted-creation-is-in-the-file")
+	da := verifFindDataset(f, "/a")
+	vrt.Assert(da != nil, "a-present")
+	if da != nil {
+		v, err := da.Read()
+		vrt.AssertNoErr(err, "a-read-ok")
+		vrt.Assert(len(v) == 1 && v[0] == float64(x), "a-data-unchanged")
+	}
+	vrt.Covered("failing-call-compared")
+	_ = f.Close()
+}
+
+// calls on handles whose writer has been closed: an error (never a panic), and the closed file keeps its content
+func VerifH_C16_api_closed_handles() {
+	fw, err := CreateForWrite("c16c.h5", CreateTruncate, WithSuperblockVersion([]uint8{0, 2}[vrt.Choice(2)]))
+	vrt.AssertNoErr(err, "create-ok")
+	x := vrt.I32()
+	a, err := fw.CreateDataset("/a", Int32, []uint64{1})
+	vrt.AssertNoErr(err, "create-a-ok")
+	vrt.AssertNoErr(a.Write([]int32{x}), "write-a-ok")
+	c, err := fw.CreateDataset("/c", Int32, []uint64{2}, WithChunkDims([]uint64{1}), WithMaxDims([]uint64{Unlimited}))
+	vrt.AssertNoErr(err, "create-c-ok")
+	vrt.AssertNoErr(c.Write([]int32{1, 2}), "write-c-ok")
+	vrt.AssertNoErr(fw.Close(), "close-ok")
+	var cerr error
+	switch vrt.Choice(9) {
+	case 0:
+		_, cerr = fw.CreateDataset("/n", Int32, []uint64{1})
+	case 1:
+		_, cerr = fw.CreateGroup("/g")
+	case 2:
+		cerr = a.Write([]int32{vrt.I32()})
+	case 3:
+		cerr = a.WriteAttribute("k", int32(1))
+	case 4:
+		cerr = c.Resize([]uint64{3})
+	case 5:
+		cerr = fw.CreateHardLink("/h", "/a")
+	case 6:
+		cerr = fw.CreateSoftLink("/s", "/a")
+	case 7:
+		_, cerr = fw.OpenDataset("/a")
+	default:
+		cerr = a.DeleteAttribute("k")
+	}
+	vrt.Assert(cerr != nil, "invalid-call-returns-error")
+	_ = fw.Close()
+	f, err := Open("c16c.h5")
+	vrt.AssertNoErr(err, "reopen-ok")
+	tree, dup := verifTree(f)
+	vrt.Assert(!dup, "no-name-twice")
+	want := map[string]bool{"/": true, "/a": true, "/c": true}
+	for p := range tree {
+		vrt.Assert(want[p], "failed-call-left-no-object")
+	}
+	da := verifFindDataset(f, "/a")
+	vrt.Assert(da != nil, "a-present")
+	if da != nil {
+		v, err := da.Read()
+		vrt.AssertNoErr(err, "a-read-ok")
+		vrt.Assert(len(v) == 1 && v[0] == float64(x), "a-data-unchanged")
+		list, _ := da.ListAttributes()
+		vrt.Assert(len(list) == 0, "a-attr-count-unchanged")
+	}
+	dc := verifFindDataset(f, "/c")
+	vrt.Assert(dc != nil, "b-present")
+	if dc != nil {
+		v, err := dc.Read()
+		vrt.AssertNoErr(err, "b-read-ok")
+		vrt.Assert(len(v) == 2 && v[0] == 1 && v[1] == 2, "b-data")
+	}
+	vrt.Covered("failing-call-compared")
+	_ = f.Close()
+}
+
+// capacity of a group's name heap: long names are created until one is refused; the refused call leaves nothing
+// behind, later calls behave normally (they may be refused too), the reopened tree holds exactly the accepted names
+func VerifH_C16_api_name_heap_capacity() {
+	vrt.LoopBound(20000)
+	fw, err := CreateForWrite("c16h.h5", CreateTruncate, WithSuperblockVersion([]uint8{0, 2}[vrt.Choice(2)]))
+	vrt.AssertNoErr(err, "create-ok")
+	L := []int{40, 61, 100, 300}[vrt.Choice(4)]
+	inGroup := vrt.Bool()
+	parent := ""
+	want := map[string]bool{"/": true}
+	if inGroup {
+		_, err := fw.CreateGroup("/p")
+		vrt.AssertNoErr(err, "create-g-ok")
+		parent = "/p"
+		want["/p"] = true
+	}
+	base := make([]byte, L)
+	for i := range base {
+		base[i] = 'n'
+	}
+	refused := 0
+	for i := 0; i < 14; i++ {
+		base[0], base[1] = byte('a'+i), byte('a'+i)
+		p := parent + "/" + string(base)
+		var cerr error
+		if i%2 == 0 {
+			_, cerr = fw.CreateGroup(p)
+		} else {
+			var d *DatasetWriter
+			d, cerr = fw.CreateDataset(p, Int32, []uint64{1})
+			if cerr == nil {
+				vrt.AssertNoErr(d.Write([]int32{int32(i)}), "later-write-ok")
+			}
+		}
+		if cerr == nil {
+			want[p] = true
+		} else {
+			refused++
+		}
+	}
+	vrt.Assert(refused > 0, "heap-capacity-reached")
+	_, serr := fw.CreateGroup(parent + "/z")
+	if serr == nil {
+		want[parent+"/z"] = true
+	}
+	vrt.AssertNoErr(fw.Close(), "close-ok")
+	f, err := Open("c16h.h5")
+	vrt.AssertNoErr(err, "reopen-ok")
+	tree, dup := verifTree(f)
+	vrt.Assert(!dup, "no-name-twice")
+	n := 0
+	for p := range tree {
+		q := p
+		if len(q) > 1 && q[len(q)-1] == '/' {
+			q = q[:len(q)-1]
+		}
+		vrt.Assert(want[q], "failed-call-left-no-object")
+		n++
+	}
+	vrt.Assert(n == len(want), "accepted-creation-is-in-the-file")
 	vrt.Covered("failing-call-compared")
 	_ = f.Close()
 }
